@@ -65,7 +65,12 @@ type Case struct {
 	// and answers the others, upstream 1 is healthy
 	SliceFaults []string `json:"slice_faults,omitempty"`
 	StepSec     int64    `json:"step_sec,omitempty"`
-	Class       string   `json:"class,omitempty"`
+	// kind "slow": upstream 0 is healthy but takes LatencyMs per response, the client's timeout is TimeoutMs (> latency),
+	// Slices x latency / Workers exceeds timeout + 1s; upstream 1 is healthy and instant
+	TimeoutMs int    `json:"timeout_ms,omitempty"`
+	LatencyMs int    `json:"latency_ms,omitempty"`
+	Workers   int    `json:"workers,omitempty"`
+	Class     string `json:"class,omitempty"`
 }
 
 // Phase: one fault assignment of a sequence case, and the calls made through the (same, live) group while it lasts.
@@ -808,6 +813,86 @@ func checkSliceFaults(c Case) (inf info, err error) {
 }
 
 // ---------------------------------------------------------------------------
+// part 1, slow but healthy: every single response arrives well within the timeout, the whole sliced query does not
+
+func checkSlow(c Case) (inf info, err error) {
+	if c.TimeoutMs <= 0 || c.LatencyMs <= 0 || c.Workers <= 0 || c.Slices < 2 {
+		return inf, fmt.Errorf("%w: not a slow case", errInconclusive)
+	}
+	start := rangeBase
+	end := rangeBase + int64(c.Slices)*7200 - rangeStep
+	nbits := int((end-start)/rangeStep) + 8
+	series := []fakeprom.BitmapSeries{{Labels: map[string]string{"upstream": "x"}, Runs: []int{0, nbits}}}
+	s0 := fakeprom.NewBitmapServer(fakeprom.Bitmap{Origin: start, Step: rangeStep, Series: series}, false)
+	s1 := fakeprom.NewBitmapServer(fakeprom.Bitmap{Origin: start, Step: rangeStep, Series: series}, false)
+	defer s0.Close()
+	defer s1.Close()
+	s0.SetDelays([]time.Duration{time.Duration(c.LatencyMs) * time.Millisecond})
+	timeout := time.Duration(c.TimeoutMs) * time.Millisecond
+	proms := []*promapi.Prometheus{
+		promapi.NewPrometheus("c15", s0.URL(), "", nil, timeout, c.Workers, 1_000_000, nil),
+		promapi.NewPrometheus("c15", s1.URL(), "", nil, timeout, c.Workers, 1_000_000, nil),
+	}
+	fg := promapi.NewFailoverGroup("c15", s0.URL(), proms, c.Required, "up", nil, nil, nil)
+	reg := prometheus.NewRegistry()
+	fg.StartWorkers(reg)
+	defer fg.Close(reg)
+
+	type out struct {
+		r   *promapi.RangeQueryResult
+		err error
+		pan any
+	}
+	done := make(chan out, 1)
+	go func() {
+		var o out
+		defer func() {
+			if p := recover(); p != nil {
+				o.pan = p
+			}
+			done <- o
+		}()
+		o.r, o.err = fg.RangeQuery(context.Background(), "c15_slow", absRange{start, end, rangeStep})
+	}()
+	var o out
+	select {
+	case o = <-done:
+	case <-time.After(120 * time.Second):
+		return inf, fmt.Errorf("%w: no result within 120s", errInconclusive)
+	}
+	if o.pan != nil {
+		return inf, fmt.Errorf("panic: %v", o.pan)
+	}
+	// timing soundness: the fake's own service times must all be well below the timeout
+	reqs0 := s0.Requests()
+	var worst int64
+	for _, r := range reqs0 {
+		if r.ServiceUs == 0 && !r.Aborted {
+			// still in progress / cut off: measured as "unknown"; only acceptable if the client gave it up
+			continue
+		}
+		worst = max(worst, r.ServiceUs)
+	}
+	if worst > int64(c.TimeoutMs)*600 {
+		return inf, fmt.Errorf("%w: the slowest response of upstream 0 took %d us, more than 60%% of the %d ms timeout", errInconclusive, worst, c.TimeoutMs)
+	}
+	inf.class = fmt.Sprintf("slow:workers=%d", c.Workers)
+	inf.nontrivial = c.Slices*c.LatencyMs/c.Workers > c.TimeoutMs+1000
+	contacted1 := len(s1.Requests())
+	inf.observed = fmt.Sprintf("upstream 0 served %d request(s), slowest %d us; upstream 1 saw %d request(s)", len(reqs0), worst, contacted1)
+	where := fmt.Sprintf("range query of %d slices, %d worker(s), timeout %d ms, upstream 0 healthy with %d ms per response (%d ms for the whole query), upstream 1 healthy, required=%v",
+		c.Slices, c.Workers, c.TimeoutMs, c.LatencyMs, c.Slices*c.LatencyMs/c.Workers, c.Required)
+	switch {
+	case o.err != nil:
+		return inf, fmt.Errorf("%s: every response of upstream 0 arrived within the timeout, yet the query failed: %v; %s", where, o.err, inf.observed)
+	case o.r.URI != s0.URL() || contacted1 > 0:
+		return inf, fmt.Errorf("%s: every response of upstream 0 arrived within the timeout, so it is available and must answer; the answer is attributed to %s; %s",
+			where, o.r.URI, inf.observed)
+	}
+	return inf, nil
+}
+
+// ---------------------------------------------------------------------------
 // part 2
 
 // Opts: the documented settings of the checks of part 2 (config `check "..." {}` / rule options), all optional.
@@ -1029,6 +1114,8 @@ func runOnce(c Case) (info, error) {
 		return checkSequence(c)
 	case "slicefaults":
 		return checkSliceFaults(c)
+	case "slow":
+		return checkSlow(c)
 	}
 	return info{}, fmt.Errorf("unknown case kind %q", c.Kind)
 }
@@ -1326,7 +1413,7 @@ func knownClass(c Case) string { return "" }
 var wsRe = regexp.MustCompile(`\s+`)
 
 func caseKey(c Case) string {
-	return fmt.Sprintf("%s|%s|%v|%v|%d|%s|%s|%+v|%+v|%v|%d", c.Kind, c.Endpoint, c.Modes, c.Required, c.Slices, c.Check, c.Rule, c.Opts, c.Phases, c.SliceFaults, c.StepSec)
+	return fmt.Sprintf("%s|%s|%v|%v|%d|%s|%s|%+v|%+v|%v|%d|%d|%d|%d", c.Kind, c.Endpoint, c.Modes, c.Required, c.Slices, c.Check, c.Rule, c.Opts, c.Phases, c.SliceFaults, c.StepSec, c.TimeoutMs, c.LatencyMs, c.Workers)
 }
 
 type recorder struct {
@@ -1397,6 +1484,19 @@ func driveRapid(t *testing.T, gen func(*rapid.T) Case) {
 func TestPropFailover(t *testing.T)    { driveRapid(t, genFailover) }
 func TestPropFailoverSeq(t *testing.T) { driveRapid(t, genSequence) }
 func TestPropSliceFaults(t *testing.T) { driveRapid(t, genSliceFaults) }
+func TestPropSlowHealthy(t *testing.T) { driveRapid(t, genSlow) }
+
+func genSlow(t *rapid.T) Case {
+	c := Case{Kind: "slow", Endpoint: "query_range"}
+	c.TimeoutMs = rapid.SampledFrom([]int{300, 400, 500}).Draw(t, "timeout")
+	c.LatencyMs = c.TimeoutMs * rapid.IntRange(30, 45).Draw(t, "latencyPct") / 100
+	c.Workers = rapid.IntRange(1, 2).Draw(t, "workers")
+	// enough slices for the whole query to outlast timeout + 1s (pint's margin) by a good deal
+	need := (c.TimeoutMs+1000)*c.Workers/c.LatencyMs + 1
+	c.Slices = need + rapid.IntRange(2, 5).Draw(t, "extraSlices")
+	c.Required = rapid.Bool().Draw(t, "required")
+	return c
+}
 
 func genSliceFaults(t *rapid.T) Case {
 	c := Case{Kind: "slicefaults", Endpoint: "query_range"}
